@@ -566,12 +566,24 @@ func (x *Exec) havocTarget(p *Path, ctx *EvalCtx, target string, ghost bool, fc 
 	}
 	switch t := ex.(type) {
 	case *ESel:
+		tname := ""
 		if id, ok := t.X.(*EIdent); ok {
 			if _, isVar := ctx.lookup(id.Name); !isVar {
+				tname = id.Name
+			}
+		} else if q, ok := t.X.(*ESel); ok {
+			if id, ok := q.X.(*EIdent); ok {
+				if _, isVar := ctx.lookup(id.Name); !isVar && ctx.resolveType(id.Name+"."+q.F) != nil {
+					tname = id.Name + "." + q.F // pkg.T.f
+				}
+			}
+		}
+		if tname != "" {
+			{
 				// T.f: whole field
-				ty := ctx.resolveType(id.Name)
+				ty := ctx.resolveType(tname)
 				if ty == nil {
-					ctx.fail("modifies: unknown %s", id.Name)
+					ctx.fail("modifies: unknown %s", tname)
 				}
 				tkey := typeKey(ty)
 				if tc := e.cs.Types[tkey]; tc != nil && tc.Ghost[t.F] != nil {
